@@ -1,5 +1,9 @@
 mod log_reader;
 mod log_writer;
+#[cfg(not(kani))]
+mod persister_task;
+#[cfg(kani)]
+#[path = "/verif/model/persister_task.rs"]
 mod persister_task;
 
 pub use log_reader::SegmentLogReader;
